@@ -220,7 +220,8 @@ fn run(cfg: &RunCfg) -> Report {
         let dst = if rng.chance(3, 4) { c.addr } else { rng.byte() & 0x7F };
         let (s7, iid) = (rng.byte() & 0x7F, rng.byte() & 0x1F);
         let req = make_request(form, &mut rng, dst, s7, iid, c.vendors.len());
-        check(&c, rng.next(), rng.below(30) as usize, &req, &mut rep);
+        let pl = if rng.chance(1, 60) { 260 + rng.below(300) as usize } else { rng.below(30) as usize };
+        check(&c, rng.next(), pl, &req, &mut rep);
     }
     rep
 }
